@@ -193,6 +193,10 @@ def mac_covers(ctx):
                     keyed = False
     ctx.check(keyed, sb.key, 'keyed by msk.signing_key',
               'the KMAC is not keyed with the master signing key', 'Kmac::v256(signing_key, ..)', h.ctor.where())
+    odd = [u.origin for u in h.events if '~' in u.origin]
+    ctx.check(not odd, sb.key, 'MAC walks its inputs in their own order, entirely',
+              'the KMAC transcript of sign absorbs %s reversed / partially: signatures issued by the pinned release no longer verify '
+              '(and what is skipped is not authenticated)' % odd[:2], 'no rev / skip / take / filter on the way', sb.where())
     ctx.floor(len(h.events), 5, 'KMAC update sites')
     # order: markers, then per right: right, then its secrets (key order)
     roles = []
